@@ -156,7 +156,7 @@ pub fn run(ctx: &mut Ctx) {
                 (receiver = the inner C) and on `Impl<App>` with a hand-written `impl TheTrait for App`; results and one-entry traces must agree; probes: C, Impl<C>, Impl<App> implement \
                 the trait, an unrelated X and Impl<X> do not; non-trivial = non-ident shape, explicit lifetime, async or >=1 argument; distinct = distinct program text"
         .into();
-    let n = ctx.n(300, 5000) as usize;
+    let n = ctx.n(1000, 10000) as usize;
     for feature_unimock in [false, true] {
         let tapes = crate::drive::gen_tapes(ctx.seed, 500 + feature_unimock as u64, n / 2, TAPE_LEN);
         let cases: Vec<Case> = tapes.iter().map(|tp| gen_case(&mut Tape::new(tp), feature_unimock)).collect();
